@@ -34,8 +34,8 @@ def main():
     opts = dict(a[2:].split("=", 1) for a in sys.argv[1:] if a.startswith("--") and "=" in a)
     tier = opts.get("tier", "quick"); scale = float(opts.get("scale", "1"))
     expect = {}
-    ep = os.path.join(VERIF, "mutants", "expect.json")
-    if os.path.exists(ep): expect = json.load(open(ep))
+    for ep in (os.path.join(VERIF, "mutants", "expect.json"), os.path.join(VERIF, "mutants", "benign", "expect.json")):
+        if os.path.exists(ep): expect.update(json.load(open(ep)))
     patches = []
     for a in args:
         if os.path.isdir(a):
